@@ -99,13 +99,12 @@ func (d *motionDetector) Reset(camera cptvframe.CameraSpec) {
 
 func (d *motionDetector) calculateThreshold(backAverage float64) {
 	if d.tempThreshMin != 0 {
-		d.tempThresh = uint16(math.Max(backAverage, float64(d.tempThreshMin)))
-	} else {
-		d.tempThresh = uint16(backAverage)
+		backAverage = math.Max(backAverage, float64(d.tempThreshMin))
 	}
 	if d.tempThreshMax != 0 {
-		d.tempThresh = uint16(math.Min(backAverage, float64(d.tempThreshMax)))
+		backAverage = math.Min(backAverage, float64(d.tempThreshMax))
 	}
+	d.tempThresh = uint16(backAverage)
 }
 
 func (d *motionDetector) Detect(frame *cptvframe.Frame) bool {
